@@ -65,11 +65,19 @@ def gen_reg(rng):
     nops = rng.choice([5, 10, 18, 30])
     stamps = rng.sample(range(1, 1000), nops)
     ops = []
+    # identities: a small client-id space, so that the same client is often authenticated on two registered connections
+    # (UpdateAuth of a second connection to a client id another one holds; registration of an already authenticated connection)
+    auth = rng.choice([0.0, 0.2, 0.35])
     for k in range(nops):
         r = rng.random()
-        if r < 0.72:
+        if r < auth:
+            ops.append([2, rng.randrange(1, 8), rng.randrange(1, 4)])
+        elif r < auth + (1 - auth) * 0.72:
             ident = 0 if rng.random() < 0.04 else rng.randrange(1, 8)
-            ops.append([0, ident, stamps[k]])
+            if kind != "tunnel" and auth > 0 and rng.random() < 0.3:
+                ops.append([0, ident, stamps[k], rng.randrange(1, 4)])
+            else:
+                ops.append([0, ident, stamps[k]])
         else:
             ops.append([1, rng.randrange(1, 8)])
     return {"mode": "reg", "kind": kind, "max": mx, "ops": ops}
@@ -321,6 +329,7 @@ def run(ctx, only_cases=None):
                                        activation_count_on_read_fault="lenient listing (fails open)" if variants["mapping_fault"] == 2 else "aborts (fail closed)"),
         "read_fault_positions_tried": sum(len(o["outcomes"]) for c, o in zip(cases, outs) if c["mode"] == "qfault"),
         "input_distribution": dict(dist, contention_trials=trials,
+                                   reg_with_shared_client_identity=sum(1 for c in cases if c["mode"] == "reg" and any(op[0] == 2 or len(op) > 3 for op in c["ops"])),
                                    limits=sorted(set(c["max"] for c in cases)),
                                    server_all_check_first=sum(1 for c in cases if c["mode"] == "server" and sorted(c["sched"][:len(c["closes"])]) == list(range(len(c["closes"])))),
                                    quota_overlapping=sum(1 for c, o in zip(cases, outs) if c["mode"] == "quota" and not overlap_free(o["sched"], c["threads"]))),
